@@ -259,7 +259,7 @@ func c07known(s *c07Sys) string {
 func c07Local(r *ev.Reporter) {
 	depth := 4
 	if !r.Quick() {
-		depth = 6
+		depth = 5
 	}
 	var sum []string
 	for _, cfg := range []struct {
@@ -274,13 +274,11 @@ func c07Local(r *ev.Reporter) {
 		d, dedup := depth, true
 		if cfg.cache > 0 {
 			dedup = false
-			d = 3 // 52^3 = 1.4*10^5 sequences (quick), 52^4 = 7.3*10^6 (thorough)
+			d = 3 // 63^3 = 2.5*10^5 sequences
 			if rs == rules.NameFastHotStuff {
-				d = 2 // 154^2 = 2.4*10^4 (quick), 154^3 = 3.7*10^6 (thorough)
+				d = 2 // 185^2 = 3.4*10^4 sequences
 			}
-			if !r.Quick() {
-				d++
-			}
+			// (the same in both tiers: one level more costs 63x / 185x)
 		}
 		st := seq.Run(seq.Config{NumOps: len(e.ops), MaxDepth: d, Dedup: dedup, New: func() seq.System { return e.newSys() },
 			Stop: func() bool { return r.Violations() > 6 },
